@@ -1531,6 +1531,7 @@ func rpcOracles(trace string) []string {
 	inUseQ := map[int]bool{}         // question ids of the Conn between its Boot/Call and its Finish
 	impRefs := map[int]int{}         // import id -> descriptors the script sent since the last Release
 	uncertain := map[int]bool{}
+	embargoed := map[int]bool{} // embargoes the Conn announced (Disembargo senderLoopback) and the script has not lifted yet
 	relQ := map[int]bool{} // questions whose Finish (releaseResultCaps) went out before their Return: the peer drops those caps itself
 	sentOrder := map[string]int{}    // tag -> position at which it was sent (script calls and local calls)
 	lastDeliv := map[string]int{}    // cap -> position of the last tag delivered to it
@@ -1560,7 +1561,13 @@ func rpcOracles(trace string) []string {
 		} else {
 			res = rest
 		}
-		if res == "blocked" {
+		if strings.HasPrefix(op, "pDr") {
+			var id int
+			fmt.Sscanf(op, "pDr%d", &id)
+			delete(embargoed, id)
+		}
+		if res == "blocked" && !(len(embargoed) > 0 && (strings.HasPrefix(op, "lC") || strings.HasPrefix(op, "lP"))) {
+			// (a call on an embargoed capability waits, inside SendCall, for the peer's Disembargo: that is the protocol)
 			note("!blocked:" + op)
 		}
 		pos++
@@ -1755,6 +1762,10 @@ func rpcOracles(trace string) []string {
 					note(fmt.Sprintf("!question-id-%d-reused-before-finish", q))
 				}
 				inUseQ[q] = true
+			case strings.HasPrefix(ev, ">Dis(sl"):
+				var id int
+				fmt.Sscanf(ev, ">Dis(sl%d,", &id)
+				embargoed[id] = true
 			case strings.HasPrefix(ev, ">Fin("):
 				var q int
 				fmt.Sscanf(ev, ">Fin(%d,", &q)
